@@ -271,8 +271,11 @@ fn gen_cases(seed: u64, n: u64, nops: u64, nreads: u64) -> Vec<Value> {
     let mut cases = Vec::new();
     for i in 0..n {
         let ns = rng.range(2, 4) as u32; let np = rng.range(1, 3) as u32; let no = rng.range(2, 4) as u32; let ng = rng.range(1, 3) as u32;
-        // subjects and objects overlap (terms 1..) so that the same id appears in several positions
-        let u = Universe { s: (1..=ns).collect(), p: (10..10 + np).collect(), o: (2..2 + no).collect(), g: (20..20 + ng).collect() };
+        // one pool of term ids for all three positions: the same id occurs as subject, predicate and object
+        // (a predicate that is also a subject, an object that is also a graph-unrelated subject, ...)
+        let _ = (np, no);
+        let pool: Vec<u32> = (1..=ns + 1).collect();
+        let u = Universe { s: pool.clone(), p: pool.clone(), o: pool.clone(), g: (20..20 + ng).collect() };
         let mut ops = Vec::new();
         let mut live: Vec<[u32; 4]> = Vec::new();
         for _ in 0..nops {
